@@ -20,8 +20,14 @@
 #include <asmjit/support/arenastring.h>
 #include <asmjit/support/arenatree.h>
 #include <asmjit/support/arenavector.h>
+// The prime / reciprocal / shift table of the hash table is a file-static of arenahash.cpp.  The harness compiles that
+// source file (taken from the tree under test through the include path) into this translation unit, so that every row
+// of the table can be observed without allocating a bucket array of that size.  The three out-of-line members it
+// defines (_rehash/_insert/_remove) are therefore the ones linked into this binary.
+#include <asmjit/support/arenahash.cpp>
 #include "vjson.h"
 #include <sys/mman.h>
+#include <sys/resource.h>
 #include <sys/wait.h>
 #include <algorithm>
 #include <functional>
@@ -444,6 +450,7 @@ struct World {
       case 1: return key * 2654435761u;
       case 2: return key & 3u;
       case 3: return 0xFFFFFFF0u + (key & 7u);
+      case 5: return 0xFFFFFFFFu - key;          // driver-chosen hash codes just below 2^32
       default: return key * 65599u + 0x80000000u;
     }
   }
@@ -452,19 +459,71 @@ struct World {
     for (int t : which) {
       auto& H = hash[t];
       W.beginObj().kv("t", t + 1).kv("size", H._size).kv("nb", H._buckets_count);
-      W.key("buckets").beginArr();
+      W.key("buckets").beginArr();          // non-empty buckets only: [index, [[id, key, home], ...]]
       for (uint32_t i = 0; i < H._buckets_count; i++) {
-        W.beginArr();
+        if (!H._data[i]) continue;
+        W.beginArr().val((long long)i).beginArr();
         size_t guard = 0;
-        for (ArenaHashNode* n = H._data[i]; n && guard < 100000; n = n->_hash_next, guard++) {
+        for (ArenaHashNode* n = H._data[i]; n && guard < 1000000; n = n->_hash_next, guard++) {
           HNode* hn = static_cast<HNode*>(n);
           W.beginArr().val((long long)hn->id).val((long long)hn->key).val((long long)H._calc_mod(hn->_hash_code)).endArr();
         }
-        W.endArr();
+        W.endArr().endArr();
       }
       W.endArr().endObj();
     }
     W.endArr();
+  }
+  std::vector<uint32_t> klist;
+  // adversarial keys for the current bucket count: hash codes that are multiples of it (and their neighbours)
+  void hash_probe_level(int t) {
+    auto& H = hash[t];
+    uint64_t nb = H._buckets_count;
+    std::vector<uint32_t> ks;
+    auto add = [&](uint64_t k) { if (k < 0x7FFFFFFFull) ks.push_back((uint32_t)k); };
+    if (hmode == 5) {                       // hash = 2^32-1-key : key0 makes the hash the largest multiple of nb
+      uint64_t key0 = 0xFFFFFFFFull % nb;
+      add(key0); add(key0 + nb); add(key0 + 2 * nb); add(key0 + 1); if (key0) add(key0 - 1); add(0); add(1); add(2);
+    } else {                                // hash = key
+      uint64_t top = 0x7FFFFFFEull / nb;
+      add(nb); add(2 * nb); add(3 * nb); add(top * nb); add(nb + 1); add(nb - 1); add(top * nb - 1);
+      add(5 * nb); add(7 * nb);
+    }
+    klist.clear();
+    for (auto k : ks) { bool dup = false; for (auto* n : hnodes) if (n->key == k) dup = true; for (auto x : klist) if (x == k) dup = true; if (!dup) klist.push_back(k); }
+    size_t first = hnodes.size() + 1;
+    if (klist.empty()) return;
+    std::vector<uint32_t> mine = klist;
+    hash_op("insk", t);
+    for (auto k : mine) hash_op("get", t, k);
+    hash_op("rem", t, (long long)first);
+    if (mine.size() > 2) hash_op("rem", t, (long long)first + 2);
+    hash_op("get", t, mine[0]);
+  }
+  // natural growth (through _insert) until the table has `target` buckets, probing every level on the way
+  void hash_grow(int t, uint32_t target) {
+    auto& H = hash[t];
+    uint32_t next_key = 1000000;
+    hash_probe_level(t);
+    while (H._buckets_count < target && !dead) {
+      uint32_t before = H._buckets_count;
+      long long need = (long long)H._buckets_grow + 1 - (long long)H._size;
+      if (need < 1) need = 1;
+      hash_op("insn", t, next_key, need);
+      next_key += (uint32_t)need;
+      if (H._buckets_count == before) break;      // did not grow (end of table): stop
+      hash_probe_level(t);
+    }
+  }
+  // every row lo..hi of the prime table whose bucket array has at most max_buckets entries, entered by _rehash
+  void hash_rows(int t, uint32_t lo, uint32_t hi, uint64_t max_buckets) {
+    auto& H = hash[t];
+    size_t nrows = sizeof(ArenaHash_prime_array) / sizeof(ArenaHash_prime_array[0]);
+    for (uint32_t i = lo; i <= hi && i < nrows && !dead; i++) {
+      if (ArenaHash_prime_array[i].prime > max_buckets) continue;
+      hash_op("rehash", t, i);
+      hash_probe_level(t);
+    }
   }
   void hash_op(const std::string& name, int t, long long a = 0, long long b = 0) {
     *g_cur = C_HASH;
@@ -500,6 +559,21 @@ struct World {
         ok &= H.insert(*arena, n) == n;
       }
       W.key("r").beginArr().val(ok).endArr();
+    } else if (name == "insk") {     // explicit key list (driver-chosen hash codes); ids consecutive from the logged first id
+      uint32_t id0 = (uint32_t)hnodes.size() + 1;
+      W.beginArr(); for (auto k : klist) W.val((long long)k); W.endArr();
+      W.val((long long)id0).endArr();
+      bool ok = true;
+      for (auto key : klist) {
+        HNode* n = arena->new_oneshot<HNode>(hcode(key), key, (uint32_t)hnodes.size() + 1);
+        hnodes.push_back(n);
+        ok &= H.insert(*arena, n) == n;
+      }
+      W.key("r").beginArr().val(ok).endArr();
+    } else if (name == "rehash") {   // a = row of the prime table: ArenaHashBase::_rehash called directly
+      W.endArr();
+      H._rehash(*arena, (uint32_t)a);
+      W.key("r").beginArr().val((long long)H._prime_index).endArr();
     } else if (name == "remn") {     // a = first node id, b = count : removes those of the nodes that are in this table
       W.val(b).endArr();
       long long cnt = 0;
@@ -958,6 +1032,7 @@ static void random_step(World& w, vj::Rng& r, const unsigned* weight) {
       else if (k < 94) w.hash_op("get", t, key);
       else if (k < 97) w.hash_op("swap", t);
       else if (k < 98) w.hash_op("release", t);
+      else if (k < 99) { w.hash_op("rehash", t, (long long)r.below(26)); if (r.chance(1, 2)) w.hash_probe_level(t); }   // any row up to 85159 buckets, also downwards
       else w.hash_op("all", t);
       break;
     }
@@ -1064,7 +1139,7 @@ static void run_random_exec(vj::Rng& r, unsigned steps) {
   World w(r);
   static const size_t blks[] = {1024, 1024, 4096, 2048};
   static const size_t stats[] = {0, 0, 0, 256, 1000, 4096, 100};
-  w.hmode = (int)r.below(5);
+  w.hmode = (int)r.below(6);
   w.new_arena(blks[r.below(4)], stats[r.below(7)]);
   w.headers();
   unsigned weight[NCOMP];
@@ -1112,6 +1187,9 @@ static void run_script(const vj::Value& s, vj::Rng& r) {
       else w.arena_alloc(name.c_str(), (size_t)A(1));
     }
     else if (c == "vector") w.vec_op(name, (int)A(1) - 1, A(2), A(3));
+    else if (c == "hash" && name == "grow") w.hash_grow((int)A(1) - 1, (uint32_t)A(2));
+    else if (c == "hash" && name == "rows") w.hash_rows((int)A(1) - 1, (uint32_t)A(2), (uint32_t)A(3), (uint64_t)A(4));
+    else if (c == "hash" && name == "insk") { w.klist.clear(); for (auto& k : op[3].arr) w.klist.push_back((uint32_t)k.i()); w.hash_op(name, (int)A(1) - 1); }
     else if (c == "hash") w.hash_op(name, (int)A(1) - 1, A(2), A(3));
     else if (c == "tree") w.tree_op(name, (int)A(1) - 1, A(2), A(3), A(4));
     else if (c == "list") w.list_op(name, (int)A(1) - 1, A(2), A(3));
@@ -1137,14 +1215,15 @@ static void run_script(const vj::Value& s, vj::Rng& r) {
 
 // Runs `body` in a forked child.  Returns true when the child ended normally.  With `mark` the parent appends the
 // ABORT line for a dead child; without it the caller rolls the trace files back and retries in smaller pieces.
-static bool in_child(const std::function<void()>& body, bool mark = true, unsigned watchdog_s = 120) {
+static unsigned g_aborted = 0;      // executions that died; after a handful the run stops (the check fails anyway)
+static bool in_child(const std::function<void()>& body, bool mark = true, unsigned watchdog_s = 30) {
   for (int c = 0; c < NCOMP; c++) fflush(g_out[c]);
   *g_cur = C_ARENA;
   pid_t pid = fork();
   if (pid == 0) {
-    // a corrupted structure can make a container (or the projection) loop forever: SIGALRM ends the execution,
-    // which is then marked ABORT like any other crash
-    alarm(watchdog_s);
+    // a corrupted structure can make a container (or the projection) loop forever: SIGXCPU ends the execution,
+    // which is then marked ABORT like any other crash (the limit is CPU time, so a busy machine cannot trigger it)
+    { struct rlimit rl; rl.rlim_cur = watchdog_s; rl.rlim_max = watchdog_s + 5; setrlimit(RLIMIT_CPU, &rl); }   // CPU seconds, not wall time
     std::set_terminate([] { _exit(70); });
     body();
     for (int c = 0; c < NCOMP; c++) fflush(g_out[c]);
@@ -1155,6 +1234,7 @@ static bool in_child(const std::function<void()>& body, bool mark = true, unsign
   bool ok = WIFEXITED(status) && WEXITSTATUS(status) == 0;
   if (!ok && !mark) return false;
   if (!ok) {
+    g_aborted++;
     int c = *g_cur;
     if (c < 0 || c >= NCOMP) c = 0;
     // the child's partial line (if any) is terminated first
@@ -1164,7 +1244,50 @@ static bool in_child(const std::function<void()>& body, bool mark = true, unsign
   return ok;
 }
 
+// ---------------------------------------------------------------------------------------------------------
+// pointwise observations of ArenaHashBase::_calc_mod for EVERY row of the prime table
+// ---------------------------------------------------------------------------------------------------------
+struct HashProbe : public ArenaHashBase {};
+static void w32(const char* k, uint64_t v) { W.key(k).beginArr().val((long long)(v & 0xFFFF)).val((long long)((v >> 16) & 0xFFFF)).endArr(); }
+static int run_hashmod(const char* path, uint64_t max_real_buckets) {
+  FILE* f = fopen(path, "w");
+  if (!f) return 3;
+  vj::Rng r(vj::env_seed());
+  size_t nrows = sizeof(ArenaHash_prime_array) / sizeof(ArenaHash_prime_array[0]);
+  for (size_t i = 0; i < nrows; i++) {
+    uint64_t p = ArenaHash_prime_array[i].prime, rcp = ArenaHash_prime_array[i].rcp; unsigned sh = ArenaHash_prime_shift[i];
+    HashProbe h;
+    bool real = false, same = true;
+    Arena arena(4096);
+    if (p <= max_real_buckets) {          // the fields as the real _rehash() sets them
+      h._rehash(arena, (uint32_t)i);
+      real = true;
+      same = h._buckets_count == p && h._rcp_value == rcp && h._rcp_shift == sh && h._prime_index == i;
+    } else {
+      h._buckets_count = (uint32_t)p; h._rcp_value = (uint32_t)rcp; h._rcp_shift = (uint8_t)sh; h._prime_index = (uint8_t)i;
+    }
+    W.beginObj().kv("k", "row").kv("row", (long long)i); w32("p", p); w32("rcp", rcp); W.kv("sh", sh).kv("real", real).kv("same", same).endObj(); W.emit(f);
+    std::vector<uint64_t> hs = {0, 1, 2, p - 1, p, p + 1, 2 * p, 2 * p - 1, 2 * p + 1, 0xFFFFFFFFull, 0xFFFFFFFEull, 0x80000000ull, 0x7FFFFFFFull,
+                                0xFFFFFFFFull - p, 0x100000000ull - p, 0xFFFFFFFFull - p + 1};
+    uint64_t qt = 0xFFFFFFFFull / p;
+    for (uint64_t q : {qt, qt - 1, qt / 2, qt / 3 + 1, (uint64_t)1 << (31 - (63 - __builtin_clzll(p | 1)) > 0 ? 31 - (63 - __builtin_clzll(p | 1)) : 0)}) {
+      for (long long d = -2; d <= 2; d++) hs.push_back(q * p + (uint64_t)d);
+      hs.push_back(q * p + p - 1);
+    }
+    for (int k = 0; k < 24; k++) { uint64_t q = r.below(qt + 1); hs.push_back(q * p); hs.push_back(q * p + p - 1); hs.push_back(r.next() & 0xFFFFFFFFull); }
+    for (uint64_t hv : hs) {
+      if (hv > 0xFFFFFFFFull) continue;
+      uint32_t got = h._calc_mod((uint32_t)hv);
+      W.beginObj().kv("k", "mod").kv("row", (long long)i); w32("p", p); w32("h", hv); w32("got", got); W.endObj(); W.emit(f);
+    }
+    if (real) h.release(arena);
+  }
+  fclose(f);
+  return 0;
+}
+
 int main(int argc, char** argv) {
+  if (argc >= 3 && std::string(argv[1]) == "hashmod") return run_hashmod(argv[2], argc > 3 ? strtoull(argv[3], nullptr, 10) : 4000000ull);
   if (argc < 4) { fprintf(stderr, "usage: adt random <prefix> <execs> <steps> | adt script <scripts> <prefix>\n"); return 3; }
   std::string mode = argv[1];
   std::string prefix = mode == "random" ? argv[2] : argv[3];
@@ -1178,7 +1301,7 @@ int main(int argc, char** argv) {
   uint64_t seed = vj::env_seed();
   if (mode == "random") {
     unsigned nexec = (unsigned)atoi(argv[3]), steps = (unsigned)atoi(argv[4]);
-    for (unsigned x = 0; x < nexec; x++) {
+    for (unsigned x = 0; x < nexec && g_aborted < 8; x++) {
       in_child([&] { vj::Rng r(seed * 1000003ull + x); run_random_exec(r, steps); });
     }
     return 0;
@@ -1189,14 +1312,14 @@ int main(int argc, char** argv) {
     // scripts are executed in batches of 64 per child; a batch whose child died is rolled back and repeated with
     // one child per script, so a crash still only marks its own execution
     (void)x;
-    for (size_t b0 = 0; b0 < scripts.size(); b0 += 64) {
+    for (size_t b0 = 0; b0 < scripts.size() && g_aborted < 8; b0 += 64) {
       size_t b1 = std::min(scripts.size(), b0 + 64);
       off_t pos[NCOMP];
       for (int c = 0; c < NCOMP; c++) { fflush(g_out[c]); pos[c] = lseek(fileno(g_out[c]), 0, SEEK_END); }
       bool ok = in_child([&] { for (size_t i = b0; i < b1; i++) { vj::Rng r(seed * 7919ull + i); run_script(scripts[i], r); } }, false, 300);
       if (ok) continue;
       for (int c = 0; c < NCOMP; c++) if (ftruncate(fileno(g_out[c]), pos[c]) != 0) return 3;
-      for (size_t i = b0; i < b1; i++) in_child([&] { vj::Rng r(seed * 7919ull + i); run_script(scripts[i], r); });
+      for (size_t i = b0; i < b1 && g_aborted < 8; i++) in_child([&] { vj::Rng r(seed * 7919ull + i); run_script(scripts[i], r); }, true, 120);
     }
     return 0;
   }
